@@ -14,12 +14,15 @@ UT = ["uint8", "uint16", "uint32", "uint64"]
 
 
 def _messages(gdim=None, ndim=None):
-    g1 = Group("g", 10, [Field("x", 11, "uint16"), Field("y", 12, "uint8")], dim=gdim)
+    """levels whose group count and data count always differ, so that numGroups / numVarDataFields cannot be confused"""
+    g1 = Group("g", 10, [Field("x", 11, "uint16"), Field("y", 12, "uint8")], dim=gdim)                       # 0 groups, 0 data
+    gd = Group("gd", 15, [Field("x", 16, "uint8")], [], [Data("d1", 17, "varDataEncoding")], dim=gdim)        # 0 groups, 1 data
     n1 = Group("n", 20, [Field("x", 21, "uint32")], [Group("h", 22, [Field("z", 23, "uint8")], dim=gdim)],
-               [Data("nd", 24, "varDataEncoding")], dim=ndim or gdim)
+               [Data("nd", 24, "varDataEncoding"), Data("nd2", 25, "varDataEncoding")], dim=ndim or gdim)     # 1 group, 2 data
+    n2 = Group("n2", 26, [], [Group("h", 27, [Field("z", 28, "uint8")], dim=gdim), Group("h2", 29, [], dim=gdim)], [], dim=ndim or gdim)  # 2 groups, 0 data
     return [Msg("m0", 1, [Field("f", 1, "uint32")]),
-            Msg("m1", 2, [Field("f", 1, "uint16")], [g1.clone()], [Data("d", 30, "varDataEncoding")], block_length=4),
-            Msg("m2", 3, [Field("f", 1, "uint8")], [g1.clone(), n1.clone()], [Data("d", 30, "varDataEncoding"), Data("e", 31, "varDataEncoding")])]
+            Msg("m1", 2, [Field("f", 1, "uint16")], [g1.clone()], [Data("d", 30, "varDataEncoding"), Data("d2", 32, "varDataEncoding")], block_length=4),  # 1 / 2
+            Msg("m2", 3, [Field("f", 1, "uint8")], [gd.clone(), n1.clone(), n2.clone()], [Data("d", 30, "varDataEncoding")])]                            # 3 / 1
 
 
 def header_layouts():
